@@ -46,6 +46,14 @@ def generated_queries(tier='quick'):
         ('subselect-where', 'SELECT a FROM int1.tbl1 WHERE b IN (SELECT c FROM int2.tbl2)'),
         ('subselect-notin', 'SELECT a FROM int1.tbl1 WHERE b NOT IN (SELECT c FROM int2.tbl2 WHERE d = 1)'),
         ('subselect-target', 'SELECT a, (SELECT max(c) FROM int2.tbl2) FROM int1.tbl1'),
+        ('subselect-under-not', 'SELECT a FROM int1.tbl1 WHERE NOT (b IN (SELECT c FROM int2.tbl2))'),
+        ('subselect-under-minus', 'SELECT a FROM int1.tbl1 WHERE b > -(SELECT max(c) FROM int2.tbl2)'),
+        ('subselect-under-function', 'SELECT a FROM int1.tbl1 WHERE b > coalesce((SELECT max(c) FROM int2.tbl2), 0)'),
+        ('subselect-under-between', 'SELECT a FROM int1.tbl1 WHERE b BETWEEN 1 AND (SELECT max(c) FROM int2.tbl2)'),
+        ('subselect-under-case', 'SELECT CASE WHEN b > (SELECT max(c) FROM int2.tbl2) THEN 1 ELSE 0 END FROM int1.tbl1'),
+        ('subselect-having', 'SELECT a, count(*) FROM int1.tbl1 GROUP BY a HAVING count(*) > (SELECT max(c) FROM int2.tbl2)'),
+        ('subselect-having-nogroup', 'SELECT count(*) FROM int1.tbl1 HAVING count(*) > (SELECT max(c) FROM int2.tbl2)'),
+        ('subselect-orderby', 'SELECT a FROM int1.tbl1 ORDER BY (SELECT max(c) FROM int2.tbl2)'),
         ('subselect-join-mixed-where', 'SELECT * FROM int1.tbl1 WHERE a IN (SELECT x.id FROM int1.tbl2 AS x JOIN int2.tbl3 AS y ON x.id = y.id)'),
         ('subselect-join-mixed-target', 'SELECT a, (SELECT max(y.b) FROM int1.tbl2 AS x JOIN int2.tbl3 AS y ON x.id = y.id) FROM int1.tbl1'),
         ('subselect-join-mixed-delete', 'DELETE FROM int1.tbl1 WHERE a IN (SELECT x.id FROM int1.tbl2 AS x JOIN int2.tbl3 AS y ON x.id = y.id)'),
